@@ -242,7 +242,8 @@ def _r4_templates(ctx, rule_decode="R4", rule_omit="R6"):
     for label, rel, cfg, fname, callee in (("cvode/dense", DENSE, {"general.method": "dense"}, "Jac", "IJth"),
                                            ("odeint", ODEINT, {}, "Jac::operator()", "j")):
         ctx.saw(rel)
-        items = J.flatten(ctx.tree, rel, cfg)
+        # `{% set %}` variables are read as the expressions they stand for (row / col / neqns hoisted into variables, in or before the loop)
+        items = J.propagate_sets(J.flatten(ctx.tree, rel, cfg))
         sk = Skel(items)
         loops = [(it, off) for it, off in sk.items_in(fname) if it[0] == "for" and J.path(J.unfilter(it[2])[0]) == "ode.jac.rhs"]
         key = f"{label}:{fname}:for ode.jac.rhs"
@@ -254,12 +255,6 @@ def _r4_templates(ctx, rule_decode="R4", rule_omit="R6"):
             ctx.bad(rule_decode, key, (rel, it[5]), f"loop over ode.jac.rhs is filtered/sliced: {J.show(it[2])}")
             continue
         var = it[1]
-        # environment of {% set %} inside / before the loop
-        sets = {}
-        for x, st in J.walk_items(items):
-            if x[0] == "set" and x[1][0] == "name":
-                sets[x[1][1]] = x[2]
-        body_outs = [(x, st) for x, st in J.walk_items(it[3]) if x[0] == "out"]
         # the text between outputs tells the argument positions: IJth(jmatrix, <row>, <col>) = <val>;
         flat = []
         for x, st in J.walk_items(it[3]):
@@ -273,15 +268,6 @@ def _r4_templates(ctx, rule_decode="R4", rule_omit="R6"):
             ctx.bad(rule_decode, key, (rel, it[5]), f"no `{callee}(.., row, col) = value;` assignment found in the loop body", found=txt.replace("\x00", "#")[:120])
             continue
         rowe, cole, vale = (flat[int(g)][1] for g in mm.groups())
-
-        def res(e):
-            # resolve {% set %} names
-            if len(e) == 2 and e[0] == "name" and e[1] in sets:
-                return sets[e[1]]
-            if isinstance(e, tuple):
-                return tuple(res(x) if isinstance(x, tuple) else x for x in e)
-            return e
-        rowe, cole = res(rowe), res(cole)
         nrow = ("attr", ("attr", ("name", "ode"), "jac"), "nrow")
         idx0 = ("attr", ("name", "loop"), "index0")
         row_ok = rowe == ("filter", "int", ("bin", "/", idx0, nrow), (), ()) or rowe == ("bin", "//", idx0, nrow)
@@ -324,24 +310,11 @@ def _bind_args(fields, call_ir):
 def _r5(ctx, m):
     pkg = package(ctx.tree)
     fl = m.flow
-    # --- roles of the CSR accumulators, from what is appended to them
-    roles = {}
-    counter = None
-    for f in fl.facts:
-        if f.kind == "augassign" and f.op == "Add" and f.value == ("const", 1) and len(f.loops) == 2:
-            counter = f.target
-    for f in fl.facts:
-        if f.kind == "append":
-            v = simp(f.value)
-            if v[0] == "carried" and v[1] == counter:
-                roles.setdefault("rows", set()).add(f.target)
-            elif v[0] == "elem" and v[1][0] == "call" and v[1][1] == ("global", "range") and len(f.loops) == 2 and v[2] == f.loops[1].id:
-                roles.setdefault("cols", set()).add(f.target)
-            elif len(f.loops) == 2:
-                lw = lower(v)
-                hv = list(lw.holes.values())
-                if len(hv) == 1 and (hv[0][0] == "sub" or (hv[0][0] == "fmt" and hv[0][1][0] == "sub")) and lw.text.strip() in lw.holes:
-                    roles.setdefault("vals", set()).add(f.target)
+    # --- roles of the CSR accumulators, from what is appended to them (the recogniser of C03.R1)
+    from .c03 import csr_roles, _len_of_acc, _evaluated_after
+    counter, croles, measured = csr_roles(m)
+    roles = {k: {f.target for f in v} for k, v in croles.items()}
+    scan_end = max([f.seq for v in croles.values() for f in v if f.loops] or [0])
     jcall = None
     ocall = None
 
@@ -355,20 +328,25 @@ def _r5(ctx, m):
     for name, lst in fl.assigns.items():
         for v, loops, guards, line, seq in lst:
             if ctor(v, "Jacobian"):
-                jcall = (ctor(v, "Jacobian"), line)
+                jcall = (ctor(v, "Jacobian"), line, seq)
     for f in fl.facts:
         if f.kind == "return" and ctor(f.value, "ODEContent"):
             ocall = (ctor(f.value, "ODEContent"), f.line)
             for a in list(ocall[0][2]) + [x for _, x in ocall[0][3]]:
                 if ctor(a, "Jacobian"):
-                    jcall = (ctor(a, "Jacobian"), f.line)
+                    jcall = (ctor(a, "Jacobian"), f.line, f.seq)
     if jcall is None:
         ctx.missing("R5", "Jacobian(...)", (FILE, m.func.lineno), "construction of TemplateLoader.Jacobian not found")
     else:
         args = _bind_args(dataclass_fields(pkg, "TemplateLoader.Jacobian"), jcall[0])
         want = {
             "nrow": (lambda a: m.is_n_eqns(a), "n_eqns"),
-            "nnz": (lambda a: a[0] == "carried" and a[1] == counter, f"the non-zero counter `{counter}`"),
+            # the number of stored entries: the counter incremented next to the appends, or the length of the value / column
+            # list taken after the scan
+            "nnz": ((lambda a: a[0] == "carried" and a[1] == counter) if counter is not None else
+                    (lambda a: _len_of_acc(a) is not None and _len_of_acc(a) == measured and {measured} in (roles.get("vals"), roles.get("cols"))
+                     and _evaluated_after(fl, a, jcall[2], scan_end)),
+                    f"the non-zero counter `{counter}`" if counter is not None else f"len({measured}) after the scan"),
             "rows": (lambda a: a[0] == "acc" and {a[1]} == roles.get("rows"), f"the row-pointer list {sorted(roles.get('rows', []))}"),
             "cols": (lambda a: a[0] == "acc" and {a[1]} == roles.get("cols"), f"the column-index list {sorted(roles.get('cols', []))}"),
             "vals": (lambda a: a[0] == "acc" and {a[1]} == roles.get("vals"), f"the value list {sorted(roles.get('vals', []))}"),
@@ -414,7 +392,9 @@ def _r5(ctx, m):
             args = _bind_args(dataclass_fields(pkg, "TemplateLoader.RenormContent"), ctor(f.value, "RenormContent"))
             for fld, d in (("factor", 1), ("matrix", 2)):
                 a = args.get(fld)
-                ok = a is not None and a[0] == "acc" and depth.get(a[1]) == d
+                a = simp(a) if a is not None else None
+                # one entry per iteration of d nested loops: filled by append inside the loops, or a comprehension with d generators
+                ok = a is not None and ((a[0] == "acc" and depth.get(a[1]) == d) or (a[0] == "comp" and a[1] == "list" and len(a[3]) == d))
                 ctx.check(ok, "R5", f"RenormContent.{fld}", (FILE, f.line),
                           f"field `{fld}` receives the list filled inside {d} nested loop(s)", found=show(a) if a else "missing")
     # --- NetworkInfo (2 sites)
@@ -445,6 +425,12 @@ def _r5(ctx, m):
 
 T = FILE
 MUTANTS = [
+    {"name": "helper-function-removes-from-the-shared-factor-list", "edits": [
+        {"file": T, "old": '    def _prepare_ode_content(\n', "new": '    @staticmethod\n    def _minus_one(symbols, sym):\n        rest = symbols\n        rest.remove(sym)\n        return rest\n\n    def _prepare_ode_content(\n'},
+        {"file": T, "old": '            for specidx in rspecidx:\n                # df/dx, remove the dependency for current reactant\n                for ri in rspecidx:\n                    rsymcopy = rsym.copy()\n                    rsymcopy.remove(y[ri])\n                    term = f" - {\'*\'.join([f\'{rate_sym}[{rl}]\', *rsymcopy])}"\n                    jacrhs[specidx * n_eqns + ri] += term\n            for specidx in pspecidx:\n                for ri in rspecidx:\n                    rsymcopy = rsym.copy()\n                    rsymcopy.remove(y[ri])\n                    term = f" + {\'*\'.join([f\'{rate_sym}[{rl}]\', *rsymcopy])}"\n                    jacrhs[specidx * n_eqns + ri] += term\n',
+         "new": '            dprods = ["*".join([f"{rate_sym}[{rl}]", *self._minus_one(rsym, y[ri])]) for ri in rspecidx]\n            for sign, affected in (("-", rspecidx), ("+", pspecidx)):\n                for specidx in affected:\n                    for ri, dprod in zip(rspecidx, dprods):\n                        jacrhs[specidx * n_eqns + ri] += f" {sign} {dprod}"\n'}], "rules": ["R1"]},
+    {"name": 'nnz-length-taken-before-scan', "file": T, "old": '        nnz = 0\n\n        for row in range(n_eqns):\n            spjacrptr.append(nnz)\n            for col in range(n_eqns):\n                elem = jacrhs[row * n_eqns + col]\n                if elem != "0.0":\n                    spjaccval.append(col)\n                    spjacdata.append(f"{elem}")\n                    nnz += 1\n        spjacrptr.append(nnz)\n',
+     "new": '        nnz = len(spjacdata)\n        for row in range(n_eqns):\n            spjacrptr.append(len(spjacdata))\n            for col, elem in enumerate(jacrhs[row * n_eqns : (row + 1) * n_eqns]):\n                if elem == "0.0":\n                    continue\n                spjaccval.append(col)\n                spjacdata.append(elem)\n        spjacrptr.append(len(spjacdata))\n', "rules": ['R5']},
     {"name": "sparse-matrix-declared-csc", "file": "naunet/templates/cvode/src/naunet.cpp.j2", "old": "SUNSparseMatrix(NEQUATIONS, NEQUATIONS, NNZ, CSR_MAT, cv_sunctx_)", "new": "SUNSparseMatrix(NEQUATIONS, NEQUATIONS, NNZ, CSC_MAT, cv_sunctx_)", "count": 2, "rules": ["R9"]},
     {"name": "macros-gas-first", "file": "naunet/templates/base/cpp/include/naunet_macros.h.j2", "old": "{% for spec in network.species %}\n#define IDX_{{ spec.alias }} {{ loop.index0 }}", "new": "{% for spec in network.species | sort(attribute='is_surface') %}\n#define IDX_{{ spec.alias }} {{ loop.index0 }}", "rules": ["R8"]},
     {"name": "cusparse-kernel-drops-system-offset", "file": "naunet/templates/cvode/src/naunet_jac.cpp.j2", "old": "data[jistart + ", "new": "data[", "rules": ["R7"]},
@@ -471,6 +457,15 @@ MUTANTS = [
     {"name": "skip-catalyst-jac", "file": T, "old": "            for specidx in pspecidx:\n                for ri in rspecidx:\n                    rsymcopy = rsym.copy()", "new": "            for specidx in pspecidx:\n                if specidx in rspecidx:\n                    continue\n                for ri in rspecidx:\n                    rsymcopy = rsym.copy()", "rules": ["R1"]},
 ]
 BENIGN = [
+    {"name": "derivative-terms-precomputed-per-reactant", "file": T, "old": '            for specidx in rspecidx:\n                # df/dx, remove the dependency for current reactant\n                for ri in rspecidx:\n                    rsymcopy = rsym.copy()\n                    rsymcopy.remove(y[ri])\n                    term = f" - {\'*\'.join([f\'{rate_sym}[{rl}]\', *rsymcopy])}"\n                    jacrhs[specidx * n_eqns + ri] += term\n            for specidx in pspecidx:\n                for ri in rspecidx:\n                    rsymcopy = rsym.copy()\n                    rsymcopy.remove(y[ri])\n                    term = f" + {\'*\'.join([f\'{rate_sym}[{rl}]\', *rsymcopy])}"\n                    jacrhs[specidx * n_eqns + ri] += term\n',
+     "new": '            dterms = []\n            for ri in rspecidx:\n                rsymcopy = rsym.copy()\n                rsymcopy.remove(y[ri])\n                dterms.append((ri, "*".join([f"{rate_sym}[{rl}]", *rsymcopy])))\n            for specidx in rspecidx:\n                for ri, dterm in dterms:\n                    jacrhs[specidx * n_eqns + ri] += f" - {dterm}"\n            for specidx in pspecidx:\n                for ri, dterm in dterms:\n                    jacrhs[specidx * n_eqns + ri] += f" + {dterm}"\n'},
+    {"name": "derivative-terms-by-helper-function-and-zip", "edits": [
+        {"file": T, "old": '    def _prepare_ode_content(\n', "new": '    @staticmethod\n    def _minus_one(symbols, sym):\n        rest = symbols.copy()\n        rest.remove(sym)\n        return rest\n\n    def _prepare_ode_content(\n'},
+        {"file": T, "old": '            for specidx in rspecidx:\n                # df/dx, remove the dependency for current reactant\n                for ri in rspecidx:\n                    rsymcopy = rsym.copy()\n                    rsymcopy.remove(y[ri])\n                    term = f" - {\'*\'.join([f\'{rate_sym}[{rl}]\', *rsymcopy])}"\n                    jacrhs[specidx * n_eqns + ri] += term\n            for specidx in pspecidx:\n                for ri in rspecidx:\n                    rsymcopy = rsym.copy()\n                    rsymcopy.remove(y[ri])\n                    term = f" + {\'*\'.join([f\'{rate_sym}[{rl}]\', *rsymcopy])}"\n                    jacrhs[specidx * n_eqns + ri] += term\n',
+         "new": '            dprods = ["*".join([f"{rate_sym}[{rl}]", *self._minus_one(rsym, y[ri])]) for ri in rspecidx]\n            for sign, affected in (("-", rspecidx), ("+", pspecidx)):\n                for specidx in affected:\n                    for ri, dprod in zip(rspecidx, dprods):\n                        jacrhs[specidx * n_eqns + ri] += f" {sign} {dprod}"\n'}]},
+    {"name": "modifier-term-by-list-concatenation", "file": T, "old": "term = f\" + {'*'.join([f'({fact})', *depsymcopy])}\"", "new": "term = \" + \" + \"*\".join([f\"({fact})\"] + depsymcopy)"},
+    {"name": "csr-rowslice-enumerate-count-by-len", "file": T, "old": '        nnz = 0\n\n        for row in range(n_eqns):\n            spjacrptr.append(nnz)\n            for col in range(n_eqns):\n                elem = jacrhs[row * n_eqns + col]\n                if elem != "0.0":\n                    spjaccval.append(col)\n                    spjacdata.append(f"{elem}")\n                    nnz += 1\n        spjacrptr.append(nnz)\n',
+     "new": '        for row in range(n_eqns):\n            spjacrptr.append(len(spjacdata))\n            for col, elem in enumerate(jacrhs[row * n_eqns + 0 : (row + 1) * n_eqns]):\n                if elem == "0.0":\n                    continue\n                spjaccval.append(col)\n                spjacdata.append(elem)\n        nnz = len(spjacdata)\n        spjacrptr.append(nnz)\n'},
     {"name": "arrays-renamed", "edits": [
         {"file": T, "old": "jacrhs", "new": "jacent", "count": 13},
         {"file": T, "old": "rhs[", "new": "derivs[", "count": 9},
@@ -478,5 +473,7 @@ BENIGN = [
         {"file": T, "old": "zip(lhs, rhs)", "new": "zip(lhs, derivs)"}]},
     {"name": "modifier-copy-by-list", "file": T, "old": "depsymcopy = depsym.copy()", "new": "depsymcopy = list(depsym)"},
     {"name": "list-instead-of-copy", "file": T, "old": "rsymcopy = rsym.copy()", "new": "rsymcopy = list(rsym)", "count": 4},
+    {"name": "odeint-decode-in-set-variables", "file": ODEINT, "old": "j({{ (loop.index0/neqns) | int }}, {{ loop.index0%neqns }})",
+     "new": "{% set irow = loop.index0 // neqns -%}{% set icol = loop.index0 % neqns -%}j({{ irow }}, {{ icol }})"},
     {"name": "index-commuted", "file": T, "old": "jacrhs[specidx * n_eqns + ri] += term", "new": "jacrhs[ri + n_eqns * specidx] += term", "count": 2},
 ]
